@@ -210,7 +210,10 @@ class CoordGeo(object):
         elif type(self.lat) in [DECAngle, HPAngle, GONAngle,
                                 DMSAngle, DDMAngle]:
             # Use methods to convert from geodepy.angles classes
-            if notation == float:
+            if notation == type(self.lat):  # already in requested notation
+                new_lat = self.lat
+                new_lon = self.lon
+            elif notation == float:
                 new_lat = self.lat.dec()
                 new_lon = self.lon.dec()
             elif notation == DECAngle:
